@@ -63,12 +63,15 @@ def register(prop):
          "step on every node: no non-leaver record suspect/dead, no suspicion timer, no suspect/dead broadcast queued about a non-leaver, no leave event "
          "for a non-leaver, health score 0; non-trivial = >=2 nodes joined and probes ran; " + FP)
     prop("C05", [dict(scn="C05", quick=150, thorough=8000, wall_quick=150, wall_thorough=2400), dict(scn="C02I", quick=800, thorough=60000, wall_quick=60, wall_thorough=600, only=["update-lost"]),
-                 dict(scn="C02T", quick=1500, thorough=100000, wall_quick=40, wall_thorough=400, only=["refutation-never-reaches-accuser"])],
+                 dict(scn="C02T", quick=1500, thorough=100000, wall_quick=40, wall_thorough=400, only=["refutation-never-reaches-accuser"]),
+                 dict(scn="C02", quick=8000, thorough=400000, wall_quick=50, wall_thorough=600, only=["refutation-does-not-outrank"])],
          "cluster plans: 3-8 real nodes; faulty phase with loss/dup/delay/heavy-tail, stream cut/stall/refuse, timed partitions (one-way, UDP-only), crash, "
          "same-address restart with reset incarnation and new meta, graceful leave, slow node, UpdateNode; faults stop at T_f; precondition (lists-graph connected) "
          "evaluated from the nodes' tables; oracle: Members() of every live node == live set with owners' latest meta, nobody suspect, within W; "
          "non-trivial = precondition true, >=2 live nodes, >=1 fault fired. C02I (loss-free 2-4 node cluster): when every UpdateNode racing accusations/concurrent updates returned nil, "
-         "the node and all peers show the owner's latest metadata within the budget. C02T: the refutation of an isolated node reaches its accuser on an ack; " + FP,
+         "the node and all peers show the owner's latest metadata within the budget. C02T: the refutation of an isolated node reaches its accuser on an ack. "
+         "C02 (bench): every stale or conflicting record about the node itself - by gossip, piggyback or inside push/pull state, at a lower, equal or higher incarnation - is refuted above the claim "
+         "(what a restarted node needs for the others to adopt its latest metadata); " + FP,
          assumptions=["W = 3*B(C03) + K*PushPullInterval + GossipToTheDeadTime with ((n-2)/(n-1))^K < 1e-12 (random peer selection makes W a budget, not a protocol constant)"])
     prop("C07", [dict(scn="C07", quick=150, thorough=8000, wall_quick=120, wall_thorough=2400), dict(scn="C04", quick=100, thorough=5000, wall_quick=60, wall_thorough=900),
                  dict(scn="C02I", quick=1500, thorough=100000, wall_quick=60, wall_thorough=600, only=["event-pattern", "event-members-mismatch", "event-set-mismatch", "event-concurrent"]),
